@@ -25,7 +25,7 @@ LEVEL = "proof"
 TECHNIQUE = ("Coq proof by induction on the tree that the recursive visitor equals a flat-list skip/pop/stop automaton "
              "for every callback (VisitProofs.v) + extracted-model/C differential correspondence + Python reference traversal")
 RULE = ("exhaustive: all tree shapes up to N nodes (N=5 quick, 6 thorough) x the full decision tree of callback answers over "
-        "{CONTINUE,SKIP,POP,STOP,ERROR,undefined} for the first L calls (quick: L=6 up to 4 nodes, 4 for 5 nodes; thorough: L=8 up to 4 nodes, 6 for 5, 4 for 6); "
+        "{CONTINUE,SKIP,POP,STOP,ERROR,undefined} for the first L calls (quick: L=6 up to 4 nodes, 3 for 5; thorough: L=8 up to 4 nodes, 6 for 5, 4 for 6); "
         "random: seeded trees up to ~80 nodes with random and single-deviation schedules.  A case is non-trivial when more "
         "than one call happened or the result is an error; distinct = distinct (tree, consumed schedule)")
 TRUSTED = ["Coq 8.16.1 kernel (coqc), no axioms (Print Assumptions: closed under the global context)",
@@ -185,7 +185,7 @@ def _decision_tree(tree, text, maxcalls, salt, out, kind):
 
 def gen_exhaustive(tier):
     out = []
-    plan = {"quick": [(1, 6), (2, 6), (3, 6), (4, 6), (5, 4)],
+    plan = {"quick": [(1, 6), (2, 6), (3, 6), (4, 6), (5, 3)],
             "thorough": [(1, 8), (2, 8), (3, 8), (4, 8), (5, 6), (6, 4)]}[tier]
     salt = 0
     for n, maxcalls in plan:
